@@ -15,7 +15,7 @@ PROPS = {
         rule="every member of complete sub-languages of RFC 8259 (all \\uXXXX units x hex case, all supplementary "
              "scalar values as pairs, 2048 surrogates x 16 followers, all number strings over {-019.eE+} up to the length "
              "bound that match the grammar, boundary lattice, tree family T(2,2) with whitespace deviations, T(1,3), "
-             "nesting chains to 31, raw UTF-8 boundaries) x {default,strict} x {NUL-terminated, exact length + guard page}; "
+             "nesting chains to 31, raw UTF-8 boundaries, strings/names/numbers crossing the 32/64/128-byte scanner buffer steps with an escape at every position) x {default,strict} x {NUL-terminated, exact length + guard page}; "
              "non-trivial = distinct text whose parsed dump is longer than a scalar tag",
         bound=dict(quick="number strings <= 6 bytes; supplementary pairs at bit-field edges; ws deviations on T(1,2) only",
                    thorough="number strings <= 8 bytes; all 1,048,576 supplementary pairs; ws deviations on all of T(2,2)"),
@@ -240,10 +240,10 @@ PROPS = {
         runs=[dict(harness="c05", variant="san", shards=16)],
         deadline=dict(quick=400, thorough=3000),
         rule="BFS over histories on a pool of 3 handle slots: constructors (object/array/int), get, put, object_add (new key, replace, NULL value, self-add), object_del, array_add, "
-             "array_put_idx {0,1,3}, array_insert_idx {0,1}, array_del_idx, set_userdata / set_serializer (replacing the callback), deep_copy (tracked shallow copy), json_pointer_set "
+             "array_put_idx {0,1,3}, array_insert_idx {0,1}, array_del_idx, array_shrink, an extra reference taken through object_get / array_get_idx + get, set_userdata / set_serializer (replacing the callback), deep_copy (tracked shallow copy), json_pointer_set "
              "('', /a, /0, /a/b, /-), json_patch_apply (6 patches: remove, move, add, test+remove); operations enabled only when they follow the ownership rules (the pool gives away a "
              "reference it owns, no cycle); states merged on the canonical reference-count graph; at every state all references are drained in every slot order; non-trivial = distinct state",
-        bound=dict(quick="history depth 5", thorough="history depth 7"),
+        bound=dict(quick="history depth 6", thorough="history depth 7"),
         states_stat="states", transitions_stat="transitions",
         technique="explicit-state BFS of API call histories on the real reference-counted tree (ASan build), reference-count graph model predicting the exact destruction set of every call",
         claim="for every transition the return code and the exact set of destruction callbacks equal the ownership model (nothing early, late or twice), every node the pool still owns dumps "
@@ -255,7 +255,7 @@ PROPS = {
         level="fault_enumeration",
         runs=[dict(harness="c08", variant="san", shards=16)],
         deadline=dict(quick=300, thorough=1800),
-        rule="72 deterministic workloads (parse of 8 documents forcing every growth path, each constructor, member add with/without table growth and replace, array add/insert/put with growth, "
+        rule="80 deterministic workloads (parse of 8 documents forcing every growth path, parse / memory error / reset / parse again on the same parser, adds into a table full of tombstones and into a shrunk array, set_string on separately stored strings, each constructor, member add with/without table growth and replace, array add/insert/put with growth, "
              "set_string growing, deep copy, serialization of a 41-element tree under 3 flag sets, pointer get/getf/set/setf, one patch per operation kind in place and with copy_from, "
              "tokener creation, from_fd/to_fd, double-format option, equal/visit/get_string); every allocation-like call (malloc, calloc, realloc, strdup, vasprintf, duplocale, newlocale) "
              "of the operation is failed in turn (bound 1), then every pair k1<k2 (bound 2); non-trivial = distinct (workload, failed index)",
